@@ -374,7 +374,9 @@ func (e *beaconEngine) onPut(n *bNode, seq int, round uint64, sig, prev []byte, 
 		n.mu.Lock()
 		cnt := 1
 		for idx, s := range n.contrib[round] {
-			if s < seq && idx != n.sidx {
+			// s is the number of events recorded when the partial was handed over (taken before the handler
+			// ran), seq the index of this Put's own event: s == seq means nothing was recorded in between
+			if s <= seq && idx != n.sidx {
 				cnt++
 			}
 		}
@@ -1277,7 +1279,12 @@ func (e *beaconEngine) finalChecks(healAt time.Time, gap uint64, res *RunResult)
 				}
 				h := heads[n.addr]
 				if h+1 < due {
-					e.rec.Violate("C05", "not-caught-up-after-heal", "behind", "node %s has head %d, due round %d, %s after heal (gap at heal %d, bound %s)", n.addr, h, due, healed, gap, bound)
+					facts := "behind"
+					if len(live) == e.liveThreshold() {
+						// no spare member: the chain only moves when every live honest member contributes
+						facts = "behind-with-every-live-honest-member-needed"
+					}
+					e.rec.Violate("C05", "not-caught-up-after-heal", facts, "node %s has head %d, due round %d, %s after heal (gap at heal %d, bound %s; %d live honest members, threshold %d)", n.addr, h, due, healed, gap, bound, len(live), e.liveThreshold())
 				}
 			}
 			e.rec.Count("probe:c05_checked", 1)
@@ -1309,6 +1316,14 @@ func (e *beaconEngine) finalChecks(healAt time.Time, gap uint64, res *RunResult)
 	if sc.ExpectNone {
 		res.NonTrivial = cn["probe:partials_emitted"] > 0
 	}
+}
+
+// liveThreshold is the threshold in force at the end of the run (the resharing's, once announced).
+func (e *beaconEngine) liveThreshold() int {
+	if rp := e.sc.Reshare; rp != nil && rp.NewT > 0 {
+		return rp.NewT
+	}
+	return e.sc.T
 }
 
 func (e *beaconEngine) lmax() time.Duration {
